@@ -2,5 +2,9 @@
 (* Generator: explores TapeParams (exhaustively, or by -simulate) and emits every maximal history as JSON; each   *)
 (* step carries the spec's expected outcome and the expected projection of the tape it created / modified.       *)
 EXTENDS TapeParams, Json
+\* vacuity: the bases contain an operator in which an operand with several parameters is followed by further parameters
+\* (nested linear combination, sum / product of parametrised operators), in a measurement and in the operations
+DeepBases == /\ \E b \in Bases : \E i \in 1..Len(b.meas) : b.meas[i].k = "Ham" /\ DeepLayout(b.meas[i])
+             /\ \E b \in Bases : \E i \in 1..Len(b.ops) : DeepLayout(b.ops[i])
 Emit == IF Len(hist) = MaxSteps + 1 THEN PrintT(ToJson([hist |-> hist])) ELSE TRUE
 =============================================================================
